@@ -46,6 +46,14 @@ Fixpoint go_bytes_eqb (a b : list N) : bool :=
   | _, _ => false
   end.
 
+(* s < t on strings: byte-wise lexicographic *)
+Fixpoint go_bytes_ltb (a b : list N) : bool :=
+  match a, b with
+  | _, [] => false
+  | [], _ :: _ => true
+  | x :: a', y :: b' => if N.ltb x y then true else if N.ltb y x then false else go_bytes_ltb a' b'
+  end.
+
 (* encoding/binary.BigEndian.UintNN(b): reads the first NN/8 bytes (checked by the guard go_len b >= NN/8) *)
 Fixpoint go_be (n : nat) (acc : Z) (l : list N) : Z :=
   match n, l with
@@ -84,6 +92,30 @@ Fixpoint go_count_from {S R} (k : nat) (i : Z) (f : Z -> S -> ctl S R) (s : S) :
   | Datatypes.S k' => bindc (f i s) (go_count_from k' (i + 1) f)
   end.
 Definition go_count {S R} (a n : Z) (f : Z -> S -> ctl S R) (s : S) : ctl S R := go_count_from (Z.to_nat (n - a)) a f s.
+
+(* for i := a; i >= n; i-- { body } where the body assigns neither i nor anything n depends on: i = a, a-1, .., n *)
+Fixpoint go_count_down_from {S R} (k : nat) (i : Z) (f : Z -> S -> ctl S R) (s : S) : ctl S R :=
+  match k with
+  | O => Next s
+  | Datatypes.S k' => bindc (f i s) (go_count_down_from k' (i - 1) f)
+  end.
+Definition go_count_down {S R} (a n : Z) (f : Z -> S -> ctl S R) (s : S) : ctl S R := go_count_down_from (Z.to_nat (a - n + 1)) a f s.
+
+(* sort.Slice(v, less): the list sorted by less (insertion sort, stable). It is what sort.Slice - which is not stable and
+   compares pairs of its own choosing - produces when less is a strict total order on the elements of v, the only case
+   in which Go determines the result. [less a b = None]: a run-time check of the comparator fails on that pair; the
+   translation panics if that can happen for any ordered pair of elements (Go might not compare that pair). *)
+Fixpoint go_insert {A} (less : A -> A -> bool) (x : A) (l : list A) : list A :=
+  match l with
+  | [] => [x]
+  | y :: r => if less x y then x :: l else y :: go_insert less x r
+  end.
+Definition go_less_total {A} (less : A -> A -> option bool) (l : list A) : bool :=
+  forallb (fun a => forallb (fun b => match less a b with Some _ => true | None => false end) l) l.
+Definition go_sort_by {A} (less : A -> A -> option bool) (l : list A) : option (list A) :=
+  if go_less_total less l
+  then Some (fold_right (go_insert (fun a b => match less a b with Some r => r | None => false end)) [] l)
+  else None.
 
 (* map[K]V with an integer key type: association list, at most one entry per key, in order of first insertion
    (Go's iteration order is unspecified: ranging over a map is outside the subset) *)
@@ -134,6 +166,43 @@ Definition go_rd_u8 (rd : go_reader) : go_reader * Z * bool := go_rd_readbyte rd
 Definition go_rd_u16 := go_rd_be 2.
 Definition go_rd_u32 := go_rd_be 4.
 Definition go_rd_u64 := go_rd_be 8.
+
+(* float32 / float64 values are their IEEE 754 bit patterns; the only operation on them is the exact widening
+   float64(f) of a float32: sign, exponent re-bias, subnormals normalised, NaNs quieted (what the hardware conversion
+   does). The self-test compares it with the Go conversion on boundary patterns. *)
+Definition go_f32_to_f64 (bz : Z) : Z :=
+  let b := Z.to_N bz in
+  let s := (b / 2147483648)%N in let e := ((b / 8388608) mod 256)%N in let m := (b mod 8388608)%N in
+  let s64 := (s * 9223372036854775808)%N in
+  Z.of_N
+  (if (e =? 255)%N then (if (m =? 0)%N then s64 + 2047 * 4503599627370496
+                    else s64 + 2047 * 4503599627370496 + 2251799813685248 + (m mod 4194304) * 536870912)
+  else if (e =? 0)%N then
+    (if (m =? 0)%N then s64
+     else let k := N.log2 m in
+          s64 + (k + 874) * 4503599627370496 + (m - 2 ^ k) * 2 ^ (52 - k))
+  else s64 + (e + 896) * 4503599627370496 + m * 536870912)%N.
+
+(* sort.Search(n, f): the binary search of package sort, literally:
+     i, j := 0, n; for i < j { h := int(uint(i+j) >> 1); if !f(h) { i = h + 1 } else { j = h } }; return i
+   f is called on indexes in [0, n) only; [f h = None] stands for a run-time check failing inside f (the search panics).
+   For a monotone f it returns the least index where f holds, n if there is none (GoSemFacts.go_search_least). *)
+Fixpoint go_bsearch (fuel : nat) (i j : Z) (f : Z -> option bool) : option Z :=
+  match fuel with
+  | O => None
+  | Datatypes.S k =>
+      if i <? j then
+        let h := (i + j) / 2 in
+        match f h with
+        | None => None
+        | Some false => go_bsearch k (h + 1) j f
+        | Some true => go_bsearch k i h f
+        end
+      else Some i
+  end.
+Definition go_search_opt (n : Z) (f : Z -> option bool) : option Z := go_bsearch (Datatypes.S (Z.to_nat n)) 0 n f.
+Definition go_search (n : Z) (f : Z -> option bool) : Z := match go_search_opt n f with Some i => i | None => 0 end.
+Definition go_search_ok (n : Z) (f : Z -> option bool) : bool := match go_search_opt n f with Some _ => true | None => false end.
 
 (* sync/atomic on an int32 variable (the state is its value): CompareAndSwapInt32(&x, old, new), AddInt32(&x, d) *)
 Definition go_atomic_cas32 (old new : Z) (x : Z) : Z * bool := if x =? old then (new, true) else (x, false).
